@@ -1266,8 +1266,9 @@ impl SecureMemoryPool {
         // due to RefCell not being Sync. Thread-local caches will be cleared
         // when threads exit or when they access the cache and find it should be cleared.
 
-        // Clear allocation tracking
-        self.active_allocations.clear();
+        // The allocation tracking table only holds chunks that are handed out right now (cached
+        // chunks are not in it).  It must survive clear(): wiping it made the drop of every
+        // outstanding SecurePooledPtr look like a double free, and its chunk was leaked.
 
         Ok(())
     }
